@@ -3,6 +3,7 @@ package props
 import (
 	"bytes"
 	"fmt"
+	"github.com/pion/turn/v5"
 	"math/rand"
 	"net"
 	"testing"
@@ -29,6 +30,7 @@ func init() {
 	sim.RegisterKind("evenport", "C19")
 	sim.RegisterKind("family-default", "C19")
 	sim.RegisterKind("relay-unreachable", "C19")
+	sim.RegisterKind("relay-shared", "C19", "C20")
 	sim.RegisterKind("lifetime-not-in-force", "C19", "C06")
 }
 
@@ -555,9 +557,182 @@ func runC19(t *testing.T, rng *rand.Rand, rec *sim.Rec, tier string, caseNo int)
 	rec.SetSample(map[string]any{"listener": listen, "strict": strict, "steps": steps})
 }
 
+// ---------------------------------------------------------------- real sockets
+
+// realClient is a minimal raw TURN client over an operating-system UDP socket.
+type realClient struct {
+	c     *net.UDPConn
+	srv   *net.UDPAddr
+	nonce string
+	relay *net.UDPAddr
+	rng   *rand.Rand
+}
+
+func (rc *realClient) do(method uint16, build func(b *wire.Builder)) *wire.Msg {
+	for attempt := 0; attempt < 3; attempt++ {
+		var tid [12]byte
+		rc.rng.Read(tid[:])
+		b := wire.NewBuilder(method, wire.ClassRequest, tid)
+		if build != nil {
+			build(b)
+		}
+		if rc.nonce != "" {
+			b.Add(wire.AttrUsername, []byte("alice"))
+			b.Add(wire.AttrRealm, []byte("verif.test"))
+			b.Add(wire.AttrNonce, []byte(rc.nonce))
+			b.AddIntegrity(wire.LongTermKey("alice", "verif.test", "pw-a"))
+		}
+		if _, err := rc.c.WriteToUDP(b.Bytes(), rc.srv); err != nil {
+			return nil
+		}
+		buf := make([]byte, 2048)
+		for {
+			_ = rc.c.SetReadDeadline(time.Now().Add(3 * time.Second))
+			n, _, err := rc.c.ReadFromUDP(buf)
+			if err != nil {
+				return nil
+			}
+			m, err := wire.ParseSTUN(buf[:n])
+			if err != nil || m.TID != tid {
+				continue
+			}
+			if m.Class == wire.ClassError && (m.ErrorCode() == 401 || m.ErrorCode() == 438) {
+				if v, ok := m.Get(wire.AttrNonce); ok {
+					rc.nonce = string(v)
+				}
+
+				break // again, with credentials
+			}
+
+			return m
+		}
+	}
+
+	return nil
+}
+
+// runC19Real: a real Server with the bundled port-range generator on the loopback interface and
+// a range smaller than the number of clients: every Allocate success must name a relayed address
+// no other live allocation has, and a peer's datagram to that address must come out at its owner.
+func runC19Real(t *testing.T, rng *rand.Rand, rec *sim.Rec, tier string, caseNo int) {
+	lc, err := net.ListenPacket("udp4", "127.0.0.1:0")
+	if err != nil {
+		rec.Ev("real-loopback-unavailable")
+		rec.FP("real/unavailable")
+
+		return
+	}
+	// a free port pair for the range
+	probe, err := net.ListenPacket("udp4", "127.0.0.1:0")
+	if err != nil {
+		_ = lc.Close()
+
+		return
+	}
+	p0 := probe.LocalAddr().(*net.UDPAddr).Port
+	_ = probe.Close()
+	width := 1 + rng.Intn(2)
+	if p0+width > 65535 {
+		p0 -= width
+	}
+	gen := &turn.RelayAddressGeneratorPortRange{RelayAddress: net.IPv4(127, 0, 0, 1), Address: "127.0.0.1", MinPort: uint16(p0), MaxPort: uint16(p0 + width - 1), MaxRetries: 40}
+	srv, err := turn.NewServer(turn.ServerConfig{
+		Realm: "verif.test",
+		AuthHandler: func(ra *turn.RequestAttributes) (string, []byte, bool) {
+			return ra.Username, wire.LongTermKey("alice", "verif.test", "pw-a"), ra.Username == "alice"
+		},
+		PacketConnConfigs: []turn.PacketConnConfig{{PacketConn: lc, RelayAddressGenerator: gen}},
+		LoggerFactory:     sim.NewLogSink(),
+	})
+	if err != nil {
+		_ = lc.Close()
+		rec.Inconclusive("real server: %v", err)
+
+		return
+	}
+	defer srv.Close() //nolint:errcheck
+	srvAddr := lc.LocalAddr().(*net.UDPAddr)
+	peer, err := net.ListenUDP("udp4", &net.UDPAddr{IP: net.IPv4(127, 0, 0, 1)})
+	if err != nil {
+		return
+	}
+	defer peer.Close() //nolint:errcheck
+	nClients := width + 1 + rng.Intn(2)
+	var live []*realClient
+	owners := map[string]int{}
+	for i := 0; i < nClients; i++ {
+		c, err := net.ListenUDP("udp4", &net.UDPAddr{IP: net.IPv4(127, 0, 0, 1)})
+		if err != nil {
+			return
+		}
+		defer c.Close() //nolint:errcheck
+		rc := &realClient{c: c, srv: srvAddr, rng: rng}
+		m := rc.do(wire.MethodAllocate, func(b *wire.Builder) { b.Add(wire.AttrRequestedTransport, []byte{17, 0, 0, 0}) })
+		if m == nil {
+			rec.Ev("real-no-answer")
+
+			continue
+		}
+		rec.FP("real/allocate/%v/width=%d", m.Class == wire.ClassSuccess, width)
+		if m.Class != wire.ClassSuccess {
+			continue
+		}
+		ip, port, ok := m.XorAddr(wire.AttrXORRelayedAddress)
+		if !ok {
+			rec.Violate("relay-unreachable", "real/no-relayed-address", "Allocate success without XOR-RELAYED-ADDRESS")
+
+			continue
+		}
+		rc.relay = &net.UDPAddr{IP: ip, Port: port}
+		if port < p0 || port >= p0+width {
+			rec.Violate("relay-unreachable", "real/out-of-range", "relayed port %d outside the configured range [%d,%d]", port, p0, p0+width-1)
+		}
+		if j, dup := owners[rc.relay.String()]; dup {
+			rec.Violate("relay-shared", "real/port-range", "client %d was given relayed address %s which live allocation %d already has (real sockets, port range [%d,%d], %d clients)", i, rc.relay, j, p0, p0+width-1, nClients)
+		}
+		owners[rc.relay.String()] = i
+		live = append(live, rc)
+		rec.Ev("real-allocations")
+	}
+	// reachability of each relayed address: the owner gets the peer's datagram
+	for i, rc := range live {
+		m := rc.do(wire.MethodCreatePermission, func(b *wire.Builder) {
+			b.AddXorAddr(wire.AttrXORPeerAddress, net.IPv4(127, 0, 0, 1).To4(), peer.LocalAddr().(*net.UDPAddr).Port)
+		})
+		if m == nil || m.Class != wire.ClassSuccess {
+			continue
+		}
+		tag := []byte(fmt.Sprintf("to-relay-%d-%d", i, rng.Intn(1000000)))
+		if _, err := peer.WriteToUDP(tag, rc.relay); err != nil {
+			continue
+		}
+		buf := make([]byte, 2048)
+		got := false
+		for !got {
+			_ = rc.c.SetReadDeadline(time.Now().Add(2 * time.Second))
+			n, _, err := rc.c.ReadFromUDP(buf)
+			if err != nil {
+				break
+			}
+			if dm, err := wire.ParseSTUN(buf[:n]); err == nil && dm.Method == wire.MethodData {
+				if v, ok := dm.Get(wire.AttrData); ok && string(v) == string(tag) {
+					got = true
+				}
+			}
+		}
+		if got {
+			rec.Ev("real-relay-reachable")
+		} else if len(owners) == len(live) {
+			// (with a shared address the datagram may have gone to the other holder: already reported)
+			rec.Ev("real-datagram-not-seen") // wall-clock absence: not a verdict on a loaded machine
+		}
+	}
+	rec.SetSample(map[string]any{"kind": "real-sockets", "range_width": width, "clients": nClients, "successes": len(live)})
+}
+
 func init() {
 	register("C19", PropDef{
-		Bubble: true,
+		Bubble: false, // chosen per case
 		Cases: func(tier string) int {
 			if tier == "thorough" {
 				return 100000
@@ -565,6 +740,13 @@ func init() {
 
 			return 1500
 		},
-		Run: runC19,
+		Run: func(t *testing.T, rng *rand.Rand, rec *sim.Rec, tier string, caseNo int) {
+			if caseNo%50 == 49 {
+				runC19Real(t, rng, rec, tier, caseNo/50)
+
+				return
+			}
+			inBubble(t, func(t *testing.T) { runC19(t, rng, rec, tier, caseNo) })
+		},
 	})
 }
